@@ -9,7 +9,9 @@ package main
 //	     in   = quantity of the token held by the spent input (0 = ada only)
 //	     mint = quantity minted (any signed integer, also beyond int64; 0 = no mint field)
 //	     qi   = quantity of the token in output i: any signed integer, "-" = ada-only output
-//	out: decode-err | acc | rej:<error types>
+//	out: decode-err | pure=<1|0> acc | pure=<1|0> rej:<error types>
+//	     pure = 1 iff a second validation of the same decoded object gives the same verdict
+//	            and outputs / Produced() / stored bytes / mint / UTxOs read the same afterwards
 //
 // The transaction is otherwise fully valid (fee, witnesses with real signatures,
 // native-script minting policy, ada balanced), so `acc` means every rule of the
@@ -208,9 +210,23 @@ func runC08(op string) string {
 	utxo := common.Utxo{Id: tx.Inputs()[0], Output: mary.MaryTransactionOutput{OutputAddress: a, OutputAmount: inVal}}
 	ls := mockledger.NewLedgerStateBuilder().WithUtxos([]common.Utxo{utxo}).WithNetworkId(1).Build()
 	pp := g1Pparams(era, g1PP{MinFeeA: 44, MinFeeB: 155381, MaxTxSize: 16384, Major: 9, MaxValueSize: 5000})
-	errs := g1RunRules(era, tx, 10, ls, pp)
-	if len(errs) == 0 {
-		return "acc"
+	// validation must not change what the transaction or the state report (see C27)
+	utxos := []common.Utxo{utxo}
+	verdict := func() string {
+		errs := g1RunRules(era, tx, 10, ls, pp)
+		if len(errs) == 0 {
+			return "acc"
+		}
+		return "rej:" + strings.Join(errs, ",")
 	}
-	return "rej:" + strings.Join(errs, ",")
+	snap0 := g1TxSnap(tx, utxos)
+	v1 := verdict()
+	snap1 := g1TxSnap(tx, utxos)
+	v2 := verdict()
+	snap2 := g1TxSnap(tx, utxos)
+	pure := 1
+	if v1 != v2 || snap0 != snap1 || snap1 != snap2 {
+		pure = 0
+	}
+	return fmt.Sprintf("pure=%d %s", pure, v1)
 }
